@@ -13,7 +13,7 @@ import numpy as np
 
 from . import world, VERIF
 from .core import (digest, state_digest, fitted_state, log_digest, np_stream,
-                   Violation, Inconclusive)
+                   Violation, Inconclusive, h64)
 from .data import make_data
 from .estimators import (SPEC, cls_of, Resolver, fit_args, tuple_size, is_arr)
 
@@ -384,6 +384,18 @@ class Machine(object):
       ev["outcome"] = "skip"
       return
     D, via, args, kwargs = self.build_fit(h, op)
+    if not op.get("buffer") and not op.get("malformed") and \
+        h64("readonly", self.plan.get("run_seed", 0), self.op_index) % 6 == 0:
+      # the caller's arrays are read-only (memory-mapped file, frozen array): legal input
+      frozen = []
+      for a in args:
+        if isinstance(a, np.ndarray):
+          a = np.array(a, copy=True)
+          a.setflags(write=False)
+        frozen.append(a)
+      args = tuple(frozen)
+      ev["readonly_args"] = True
+      self.cov["fits_on_readonly_arrays"] += 1
     ev.update(cls=h.name, data=op["data"], via=via)
     live.update(handle=h, D=D, via=via, args=args, kwargs=kwargs,
                 malformed=op.get("malformed"))
@@ -580,6 +592,9 @@ class Machine(object):
           pairs[j] = pairs[i] * (1.0 + rn.randint(1, 4) * 2.0 ** -52)
         y[j] = -y[i] if rn.rand() < 0.7 else y[i]
       self.cov["calibration_sets_with_near_ties"] += 1
+    if op.get("f32") and via == "formed" and np.asarray(pairs).dtype == np.float64:
+      pairs = np.asarray(pairs).astype(np.float32)      # single-precision validation pairs
+      self.cov["calibration_sets_float32"] += 1
     return D, pairs, y, via
 
   def op_calibrate(self, op, ev, live):
@@ -598,7 +613,8 @@ class Machine(object):
       b0, b1 = bufs[0], bufs[1]
       p_, y_ = np.asarray(pairs), np.asarray(y)
       if isinstance(b0, np.ndarray) and isinstance(b1, np.ndarray) and b0.shape == p_.shape and \
-          b0.dtype == p_.dtype and b1.shape == y_.shape and b1.dtype == y_.dtype:
+          b0.dtype == p_.dtype and b1.shape == y_.shape and b1.dtype == y_.dtype and \
+          b0.flags.writeable and b1.flags.writeable:
         np.copyto(b0, p_)
         np.copyto(b1, y_)
         pairs, y = b0, b1
